@@ -115,6 +115,23 @@ def frameStmts : List BStmt → List (List Nat) → List FStmt
      | .query q => FStmt.byText q.text (vs.headD [])
      | .prepared p => FStmt.byId p.id (vs.headD [])) :: frameStmts rest vs.tail
 
+/-- connection.rs:1225-1230 (`find_map` over the statements of the batch that is being sent - the REBUILT one): the
+prepared statement an UNPREPARED id belongs to -/
+def findPrepared (id : String) : List BStmt → Option PStmt
+  | [] => none
+  | .prepared p :: rest => if p.id == id then some p else findPrepared id rest
+  | .query _ :: rest => findPrepared id rest
+
+/-- the loop of connection.rs:1212-1245 on the batch handed on: for every UNPREPARED answer (`script` = the ids named,
+one per BATCH frame sent) the text that is re-prepared; an id no statement of the batch has ends it
+(`RepreparedIdMissingInBatch`, `none`) -/
+def batchRounds (b : Batch) : List String → List (Option String)
+  | [] => []
+  | id :: rest =>
+    match findPrepared id b.stmts with
+    | some p => some p.text :: batchRounds b rest
+    | none => [none]
+
 /-! ## caching_session.rs -/
 
 abbrev Cache := List (String × PStmt)
@@ -151,10 +168,14 @@ def addPrepared (cap : Nat) (useCached : Bool) (prep : String → Except Nat Str
       let stmt : PStmt := ⟨id, q.text, q.cfg, q.page, useCached⟩
       .ok (stmt, cacheAdd cap pick cache stmt, true)
 
-/-- caching_session.rs:170-187 `prepare_batch`: `try_join_all` over the statements. Every future is polled in
-statement order up to its first await, so EVERY unprepared statement is looked up in the cache as it was when the call
-started: a hit completes at once, a miss asks the cluster (two statements with the same uncached text both do).
-This is the per-statement outcome; `try_join_all` fails with an error if any preparation fails. -/
+/-- caching_session.rs:170-187 `prepare_batch`: `try_join_all` over the statements = the unprepared statements are
+CONCURRENT callers of `add_prepared_statement` on the one cache (Model/PreparedCacheConc.lean). This function is the
+schedule of ONE poll pass: every future is polled in statement order up to its first await, so every unprepared
+statement is looked up in the cache as it was when the call started: a hit completes at once, a miss asks the cluster
+(two statements with the same uncached text both do). Other schedules occur (a preparation that completes before a
+later statement is first polled turns that statement's lookup into a hit - seen on a multi-thread runtime); the RESULT
+batch is the same in all of them (`cachingBatch_spec`, `C14CacheConc.handles_are_announced`), the number of PREPAREs is
+not. This is the per-statement outcome; `try_join_all` fails with an error if any preparation fails. -/
 def resolveStmt (useCached : Bool) (prep : String → Except Nat String) (cache : Cache) : BStmt → Except Nat BStmt
   | .prepared p => .ok (.prepared p)
   | .query q =>
